@@ -52,9 +52,9 @@ IndexOf(ln) ==
          LET e == [k |-> ln.k, cid |-> ln.cid, v |-> IF ln.k = "pin" THEN (IF Has(ln, "want") THEN ln.want ELSE ln.v) ELSE NONE]
              fits(n) == /\ PrefixOn(cs, tlog, n - 1) = real[ln.p]
                         /\ (n <= Len(tlog) => tlog[n].k = e.k /\ tlog[n].cid = e.cid /\ tlog[n].v = e.v)
-             ns == {n \in 1..(Len(tlog) + 1) : fits(n)}
-         IN IF tap[ln.p] + 1 \in ns \/ ns = {} THEN tap[ln.p] + 1
-            ELSE CHOOSE n \in ns : \A m \in ns : n <= m
+         IN IF fits(tap[ln.p] + 1) THEN tap[ln.p] + 1
+            ELSE LET ns == {n \in 1..(Len(tlog) + 1) : fits(n)} IN
+                 IF ns = {} THEN tap[ln.p] + 1 ELSE CHOOSE n \in ns : \A m \in ns : n <= m
 
 \* want = the value carried by the operation itself (when recorded): the statement says that is what is inserted
 Entry(ln) == [k |-> ln.k, cid |-> ln.cid, v |-> IF ln.k = "pin" THEN (IF Has(ln, "want") THEN ln.want ELSE ln.v) ELSE NONE,
